@@ -2,6 +2,7 @@ use crate::Table;
 
 pub mod calls;
 pub mod sched;
+pub mod selftest;
 pub mod c01;
 pub mod c02;
 pub mod c03;
@@ -24,6 +25,7 @@ pub mod c19;
 pub mod c20;
 
 pub fn register(t: &mut Table) {
+    selftest::register(t);
     c01::register(t);
     c02::register(t);
     c03::register(t);
